@@ -8,8 +8,12 @@ TECHS = {"C17": "symbolic interpreter over go/ssa with decision enumeration (reg
  "C16": "context-bounded symbolic execution of go/ssa (interleavings as decisions) + SMT, schedule-forced native replay",
  "C11": "context-bounded symbolic execution of go/ssa (interleavings as decisions) + SMT, schedule-forced native replay",
  "C03": "context-bounded symbolic execution of go/ssa (interleavings as decisions) + SMT, schedule-forced native replay",
- "C12": "bounded symbolic execution of go/ssa with ghost ownership state + SMT, instrumented native replay"}
+ "C12": "bounded symbolic execution of go/ssa with ghost ownership state + SMT, instrumented native replay",
+ "C09": "context-bounded symbolic execution of go/ssa (interleavings as decisions, stall = no runnable thread) + SMT, schedule-forced native replay",
+ "C10": "context-bounded symbolic execution of go/ssa (interleavings as decisions, stall = no runnable thread) + SMT, schedule-forced native replay"}
 claimed = {
+ "C09": dict(level="Partial claim. Context-bounded symbolic model checking of the real udp/client.Conn (in-memory session) and the real tcp/client.Conn with Session.Run (in-memory blocking socket): for every blocking client operation, every listed stage of it and every ending event (context cancelled, connection closed locally once or twice concurrently, peer closes, peer sends a non-frame) the operation returns without needing any further event; on the stream session Close is idempotent, Done() is completed when the loop ends and every on-close callback runs exactly once. A state in which the call can never proceed is a deadlock counterexample, replayed natively under the recorded schedule (the native run must hang).",
+             note="Not decided: wall-clock bounds, deadline expiry, DTLS/TLS and real sockets, server Stop, discovery. Trusted: gosym encoder/scheduler model (concurrent witnesses replayed natively), in-memory session/socket stubs listed in evidence.", ref="DESIGN.md §4 C09"),
  "C17": dict(level="Partial claim. The router's dispatch logic (Match/ServeCOAP/Handle/HandleRemove/DefaultHandle/Use, newRouteRegexp, extractVars) is executed by the symbolic interpreter for every decided route set, request path and map iteration order within the listed sets against an independent segment matcher; braceIndices is decided over all symbolic strings up to the bound. The regular-expression engine is not encoded: it is evaluated by the host on concrete strings, so route patterns and paths are enumerated, not symbolic.",
              note="Not decided: that compiled regexps denote exactly the pattern language in general (QuoteMeta, anchoring, arbitrary {var:re}); data races under concurrent registration/dispatch. Trusted: gosym encoder (native witnesses), host regexp.", ref="DESIGN.md §4 C17"),
  "C12": dict(level="Bounded symbolic model checking with engine ghost state per pooled message (released from the return of ReleaseMessage until AcquireMessage hands it out again): double release, any method call on a released message from outside the pool, and a held response/request/hijacked request found released or changed are violations; explored on the real UDP connection for held responses, handler-held and hijacked requests, the retransmission-vs-acknowledgement race and the release-on-return race (2 threads), block-wise responder and requester roles including the early-release error paths, the response writer, and a held response on the TCP connection.",
@@ -48,7 +52,6 @@ claimed = {
              note="Trusted: gosym encoder (cross-validated natively on every run by path witnesses), z3/cvc5. 32-bit builds outside.", ref="DESIGN.md §4 C19"),
 }
 not_applicable = {
- "C09": "liveness of blocking calls over real sockets, DTLS/TLS stacks, timers and scheduler fairness: none of it can be encoded for a solver (DESIGN.md §6)",
  "C10": "whole-server behaviour over net.Listen*/accept loops/DTLS handshakes with many goroutines: whole-program and I/O bound, outside any encodable bound (DESIGN.md §6)",
 }
 pending = {}
